@@ -52,6 +52,27 @@ def run(ctx):
             queries = [["verify", K, t, g] for t in (1, 2) for g in (False, True)]
         init = shuffle_keys(init, rng)
         ops = []
+        # the file may already exist: the same value in another layout, or a value that is == but a different JSON value
+        def twin(v):
+            if isinstance(v, dict):
+                return {k: twin(x) for k, x in v.items()}
+            if isinstance(v, list):
+                return [twin(x) for x in v]
+            if type(v) is int and v in (0, 1):
+                return rng.choice([float(v), bool(v)])
+            if type(v) is bool:
+                return int(v)
+            if type(v) is float and v == int(v) and abs(v) < 10:
+                return int(v)
+            return v
+        pre = rng.random()
+        if pre < 0.25:
+            ops.append(["prefill", json.dumps(init, separators=(",", ":")).encode()])
+        elif pre < 0.5:
+            other = {"signatures": init["signatures"], "signed": twin(init["signed"])}
+            ops += [["replace", other], ["write"], ["replace", init]]
+        elif pre < 0.6:
+            ops.append(["prefill", b"{not json"])
         for _ in range(rng.randint(2, maxlen)):
             r = rng.random()
             if r < 0.3:
@@ -80,6 +101,9 @@ def run(ctx):
                     return "the file written is not in canonical form"
             except Exception:
                 return "the file written is not JSON"
+        # the history ends with write, load and queries only: the file must hold exactly the canonical bytes of the value in memory
+        if raw is not None and raw != final:
+            return "after a final write/load the file does not hold the canonical bytes of the value that was written"
         if E.canon(init["signed"]) != E.canon(json.loads(final)["signed"]):
             return "the signed payload changed over the history"
         # every query must give the same verdict at each point of the history where no signature by a new key was added in between
